@@ -765,7 +765,7 @@ class Wigner:
             ell_lo = max(self.ell_min, ell_min)
             i1 = Yindex(ell_lo, -ell_lo, ell_min)
             j1 = Yindex(ell_lo, -ell_lo, self.ell_min)
-            n = Ysize(ell_lo, ell_max)
+            n = max(Ysize(ell_lo, ell_max), 0)  # (no common ell at all when ell_max < ell_lo)
 
             # Loop over all input quaternions
             for i_R in range(quaternions.shape[0]):
